@@ -1,19 +1,20 @@
-\* behaviour export: every single-cut behaviour
+\* behaviour export: up to six cuts, bodies with and without progress alternating (budget per stretch without progress)
 \* (tools/checks/c09.py builds its configurations from the same template - the Fix* switches of the configurations that model
 \*  the real code come from its REPAIRED table; this file is the thorough-tier one, for manual runs:
-\*  java -cp $TLA_CP tlc2.TLC -config StreamCli_gen1.cfg StreamCliMC)
+\*  java -cp $TLA_CP tlc2.TLC -config StreamCli_genI.cfg StreamCliMC)
 SPECIFICATION Spec
 CONSTANTS
   KindSet = {"post", "sa"}
-  ShapeSet <- AllShapes
-  SchemeSet = {"dec", "nested"}
-  MSet = {2, 3}
-  MRSet = {0, 1, 2}
-  MaxCuts = 1
-  ClassSet = {"bnd", "field", "name", "id", "idfull", "data", "datafull"}
-  AnswerSet = {"terr", "ok", "5xx", "404"}
+  ShapeSet <- TwoShapes
+  SchemeSet = {"dec"}
+  MSet = {3}
+  MRSet = {2}
+  MaxCuts = 6
+  ClassSet = {"bnd"}
+  AnswerSet = {"terr", "ok", "5xx"}
   FixScanner = FALSE
   FixCursor = TRUE
   Fix5xx = TRUE
+CONSTRAINT Interleaved
 INVARIANTS Export
 CHECK_DEADLOCK FALSE
